@@ -718,7 +718,16 @@ impl Gen {
                 h.step(
                     Op::Engine {
                         sender: o,
-                        msg: eng::ExecuteMsg::UpdateConfig { owner: None, insurance_fund: None, fee_pool: Some(next), initial_margin_ratio: None, maintenance_margin_ratio: None, partial_liquidation_ratio: None, liquidation_fee: None },
+                        // half of these updates also restate the (unchanged) insurance fund and a ratio: several fields in one message
+                        msg: eng::ExecuteMsg::UpdateConfig {
+                            owner: None,
+                            insurance_fund: if self.rng.chance(1, 2) { Some(h.last.eng.insurance_fund.clone()) } else { None },
+                            fee_pool: Some(next),
+                            initial_margin_ratio: None,
+                            maintenance_margin_ratio: None,
+                            partial_liquidation_ratio: None,
+                            liquidation_fee: if self.rng.chance(1, 2) { Some(u(h.last.eng.liq_fee)) } else { None },
+                        },
                         funds: 0,
                     },
                     r,
@@ -1055,6 +1064,18 @@ impl Gen {
             let op = Op::Engine { sender: "stranger".into(), msg: eng::ExecuteMsg::Liquidate { vamm: fake_vamm, trader: fake_trader, quote_asset_limit: u(0) }, funds: 0 };
             self.do_step(h, r, op);
         }
+        // de-listing ANOTHER market must not take this one out of the registry (and with it the ability to liquidate here)
+        let mut delisted: Option<usize> = None;
+        if h.w.vamms.len() > 1 && self.rng.chance(1, 6) {
+            let others: Vec<usize> = (0..h.w.vamms.len()).filter(|i| *i != v && h.last.vamms[*i].registered).collect();
+            if !others.is_empty() {
+                let u_idx = *self.rng.pick(&others);
+                let owner = h.last.ins_owner.clone();
+                let addr = Self::vaddr(h, u_idx);
+                h.step(Op::Insurance { sender: owner, msg: ins::ExecuteMsg::RemoveVamm { vamm: addr } }, r);
+                delisted = Some(u_idx);
+            }
+        }
         let pause_around = self.rng.chance(1, 6) && !h.last.eng.paused;
         if pause_around {
             let pauser = h.last.eng.pauser.clone();
@@ -1064,6 +1085,13 @@ impl Gen {
         if pause_around && self.rng.chance(3, 4) {
             let pauser = h.last.eng.pauser.clone();
             h.step(Op::Engine { sender: pauser, msg: eng::ExecuteMsg::SetPause { pause: false }, funds: 0 }, r);
+        }
+        if let Some(u_idx) = delisted {
+            if self.rng.chance(3, 4) {
+                let owner = h.last.ins_owner.clone();
+                let addr = Self::vaddr(h, u_idx);
+                h.step(Op::Insurance { sender: owner, msg: ins::ExecuteMsg::AddVamm { vamm: addr } }, r);
+            }
         }
         // same-block follow-ups (C16) and a repeat liquidation
         if st.out.ok && self.rng.chance(1, 2) {
